@@ -56,6 +56,17 @@ def _reads(c: Ctx) -> dict[str, list[tuple[Func, ast.AST]]]:
     return out
 
 
+def _only_called_from(c: Ctx, f, allowed_funcs: set, depth: int = 0) -> bool:
+    """f is a private helper (module function or `_method`) of the renderer module all of whose callers are documented readers
+    (or such helpers themselves)."""
+    if depth > 2 or f.module.rel != "renderer.py" or not (f.cls is None or f.name.startswith("_")):
+        return False
+    callers = c.cg.callers.get(f, [])
+    if not callers or any(cs.kind not in ("direct", "method") for cs in callers):
+        return False
+    return all(cs.caller in allowed_funcs or _only_called_from(c, cs.caller, allowed_funcs, depth + 1) for cs in callers)
+
+
 def rule_optread(c: Ctx) -> RuleResult:
     r = RuleResult("OPTREAD", "renderer-only options (xhtmlOut, breaks, langPrefix, highlight) are read only by their documented render "
                               "methods and by nothing in the parse phase; the self-closing spelling hangs on xhtmlOut's true branch everywhere")
@@ -91,6 +102,9 @@ def rule_optread(c: Ctx) -> RuleResult:
                       f"renderer-only option `{key}` is read in the parse phase: the token stream would depend on it")
             elif f.cls == "RendererHTML" and f.name in allowed:
                 r.add(keyk, where, f.short, U(f.module.parents.get(n, n))[:70], "discharged", f"documented reader of `{key}`")
+            elif _only_called_from(c, f, {m for name, m in rend.methods.items() if name in allowed}):
+                r.add(keyk, where, f.short, U(f.module.parents.get(n, n))[:70], "discharged",
+                      f"private helper called only from the documented readers of `{key}` ({sorted(allowed)})")
             elif f.cls == "RendererHTML":
                 r.add(keyk, where, f.short, U(f.module.parents.get(n, n))[:70], "violation",
                       f"`{key}` is read by RendererHTML.{f.name}, outside its documented place ({sorted(allowed)})")
